@@ -63,3 +63,27 @@ func VerifC18_DirStructure() {
 	}
 	rt.Reach("dirstructure-end")
 }
+
+// a root given with a trailing separator (or not): the structure's own
+// directories can be ensured, and nothing outside the root is touched
+func VerifC18_DirStructureRootForms() {
+	root := rt.Root("/r/data")
+	given := root
+	if rt.Bool("root-given-with-trailing-separator") {
+		given = root + "/"
+	}
+	ds := NewDirStructure(given, 0o755)
+	child := ds.ChildDir("sub", 0o700)
+	rt.FsFaults(0)
+	rt.FsStatDirs(true)
+	rt.Assert(ds.Ensure() == nil, "rootforms/root-can-be-ensured")
+	rt.Assert(child.Ensure() == nil, "rootforms/child-can-be-ensured")
+	rt.Assert(ds.EnsureRelPath("a/b") == nil, "rootforms/path-below-the-root-can-be-ensured")
+	rt.Assert(ds.EnsureAbsPath(root+"2/x") != nil, "rootforms/sibling-sharing-the-name-refused")
+	rt.Assert(ds.EnsureRelPath("../x") != nil, "rootforms/parent-refused")
+	rt.Assert(!rt.NativeEscapes(), "rootforms/access-inside-root")
+	for i := 0; i < rt.FsLen(); i++ {
+		rt.Assert(insideC18(root, rt.FsPath(i)), "rootforms/access-inside-root")
+	}
+	rt.Reach("rootforms-end")
+}
